@@ -29,7 +29,13 @@ func register(id string, s *propSpec) { props[id] = s }
 
 var baseTrusted = []string{"go/types, go/packages (go1.26.8)", "golang.org/x/tools v0.50.0 go/cfg, go/ssa, callgraph/vta", "oracle tables written into the checker", "reading of the property into clauses (DESIGN.md §3)"}
 
+// lateInits run after every init(): cross-property aliases that need all properties registered.
+var lateInits []func()
+
 func main() {
+	for _, f := range lateInits {
+		f()
+	}
 	prop := flag.String("property", "", "property id (C01..C20) or 'all'")
 	tier := flag.String("tier", "quick", "quick|thorough")
 	repo := flag.String("repo", "/repo", "repository root")
